@@ -126,7 +126,10 @@ def run(ck):
         cases = None
         if ts == 2 and te == 2:
             cases = [(f'sm={a}', f'(assert (= sm {a}))') for a in range(1, 13)]
-        q = A.panic_obligations(f'rule_lookup:{NAMES[ts]}|{NAMES[te]}:all_instants(abstract calendar)', get=['stdoff', 'dstoff', 'st', 'et', 't'], replay=rp_none, cap=(300 if quick else 1800))
+        def rp_lookup(m, ts=ts, te=te):
+            import c04
+            return c04.native_year_guard_violation(nat, m, ts, te)
+        q = A.panic_obligations(f'rule_lookup:{NAMES[ts]}|{NAMES[te]}:all_instants(abstract calendar)', get=['stdoff', 'dstoff', 'st', 'et', 't'] + day_vars('s') + day_vars('e'), replay=rp_lookup, cap=(300 if quick else 1800))
         q.cases = cases
         flush(ex)
     ex = A.session()
